@@ -190,10 +190,21 @@ class Continuous(AgentSchedulingComponent):
         # find at most `n_slots`
         loop_core_idx = 0
         loop_gpu_idx  = 0
+        free_lfs      = node['lfs']
+        free_mem      = node['mem']
         while len(slots) < n_slots:
 
             node_idx  = node['index']
             node_name = node['name']
+
+            # node local storage and memory must cover this slot, too
+            if lfs_per_slot and lfs_per_slot > free_lfs:
+                self._log.debug_9('not enough lfs on %s', node_name)
+                break
+
+            if mem_per_slot and mem_per_slot > free_mem:
+                self._log.debug_9('not enough mem on %s', node_name)
+                break
 
             self._log.debug_9('find resources on %s:%d', node_name, node_idx)
             self._log.debug_9('node: %s', pprint.pformat(node))
@@ -266,6 +277,8 @@ class Continuous(AgentSchedulingComponent):
             self._log.debug_9('found resources on %s: %s', node_name, slot)
 
             slots.append(slot)
+            free_lfs -= lfs_per_slot
+            free_mem -= mem_per_slot
 
         self._log.debug_9('found resources on %s', node_name)
         self._log.debug_9(pprint.pformat(slots))
